@@ -5,6 +5,7 @@ package liskbft
 import (
 	"github.com/LiskHQ/lisk-engine/pkg/blockchain"
 	"github.com/LiskHQ/lisk-engine/pkg/consensus/contradiction"
+	"github.com/LiskHQ/lisk-engine/pkg/db/diffdb"
 )
 
 type zz07Hdr struct {
@@ -107,5 +108,59 @@ func zzH_C07_api_header_priority(t *zzT) {
 	want := mhp < tip.MaxHeightPrevoted || (mhp == tip.MaxHeightPrevoted && h < tip.Height)
 	t.ObserveBool("got", got)
 	t.Assert(got == want, "tip has priority iff (maxHeightPrevoted, height) of the tip is strictly larger")
+	t.Reach("end")
+}
+
+// C07.b on the real module: "a contradicting header inside the 3-round window always is flagged" — the
+// window the module keeps must really hold three rounds. Batch size 2 (window of 6 headers): generator X
+// produces block 1, the two active validators blocks 2..W (W = 6: X's block is the OLDEST entry of a full
+// window; W = 5: one short of full; W = 7: X's block has just left the window). Then a header of X with
+// symbolic height / maxHeightGenerated / maxHeightPrevoted is checked through API.IsHeaderContradictingChain:
+// flagged exactly when X's block is still within the last three rounds and the two headers contradict.
+// (seed C07-6 let the stored window settle at 3*batchSize-1 headers.)
+//
+//zz:opt loop=40 merge=~/pkg/collection/ints.Max[uint32],~/pkg/collection/ints.Min[uint32],~/pkg/collection/ints.Min[int]
+func zzH_C07_window_covers_three_rounds(t *zzT) {
+	const bs = 2
+	m := NewModule()
+	m.Init(bs)
+	d := diffdb.New(&zzMemStore{}, []byte{})
+	g := &blockchain.BlockHeader{Version: 0, Height: 0, AggregateCommit: &blockchain.AggregateCommit{}, ID: []byte{0}}
+	if err := m.InitGenesisState(g.Readonly(), d); err != nil {
+		t.Fail("genesis state")
+	}
+	vals := BFTValidators{{address: []byte{0xa0, 0}, bftWeight: 1, blsKey: []byte{1}}, {address: []byte{0xa0, 1}, bftWeight: 1, blsKey: []byte{2}}}
+	if err := m.API().SetBFTParameters(d, 2, 2, vals); err != nil {
+		t.Fail("genesis parameters")
+	}
+	W := t.Range("chain", 3*bs-1, 3*bs+1)
+	x := []byte{0xa0, 9}
+	var first *blockchain.BlockHeader
+	lastBy := [2]uint32{}
+	for h := uint32(1); h <= uint32(W); h++ {
+		mhp, _, _, _ := m.API().GetBFTHeights(d)
+		hdr := &blockchain.BlockHeader{Version: 2, Height: h, MaxHeightPrevoted: mhp, AggregateCommit: &blockchain.AggregateCommit{}, ID: []byte{1, byte(h)}}
+		if h == 1 {
+			hdr.GeneratorAddress = x
+			first = hdr
+		} else {
+			gi := int(h) % 2
+			hdr.GeneratorAddress = []byte{0xa0, byte(gi)}
+			hdr.MaxHeightGenerated = lastBy[gi]
+			lastBy[gi] = h
+		}
+		if err := m.BeforeTransactionsExecute(hdr.Readonly(), d); err != nil {
+			t.Fail("setup: block refused by the BFT module")
+		}
+	}
+	nh := &blockchain.BlockHeader{Version: 2, Height: t.U32("new.h"), MaxHeightGenerated: t.U32("new.mhg"), MaxHeightPrevoted: t.U32("new.mhp"),
+		GeneratorAddress: x, AggregateCommit: &blockchain.AggregateCommit{}, ID: []byte{2}}
+	got, err := m.API().IsHeaderContradictingChain(d, nh.Readonly())
+	t.Assert(err == nil, "no error")
+	inWindow := W <= 3*bs // X's block at height 1 is among the last 3*bs headers of a chain of W blocks
+	want := inWindow && contradiction.AreDistinctHeadersContradicting(&zz07Hdr{h: first.Height, mhg: first.MaxHeightGenerated, mhp: first.MaxHeightPrevoted, gen: x},
+		&zz07Hdr{h: nh.Height, mhg: nh.MaxHeightGenerated, mhp: nh.MaxHeightPrevoted, gen: x})
+	t.ObserveBool("got", got)
+	t.Assert(got == want, "a header contradicting the generator's block is flagged exactly while that block is within the last three rounds")
 	t.Reach("end")
 }
